@@ -328,6 +328,17 @@ def rule_ods_cell_texts(ctx):
     rule_cell_texts(ctx, "O17.5")
 
 
+def rule_other_containers_cell_texts(ctx):
+    """O17.6 / O17.7: the same holds for the other two containers: the Excel reader delivers the text of the stored value
+    (C16's table) and the delimited reader opens its file untranslated, so a carriage return inside a quoted cell is the
+    carriage return the ODS and Excel copies hold (C12's rule on newline='')."""
+    from .c12 import rule_newline
+    from .c16 import rule_cell_values
+
+    rule_cell_values(ctx, "O17.6")
+    rule_newline(ctx, rule="O17.7", sites=(("cutplace.rowio.delimited_rows", "r"),))
+
+
 from .common import rule_module_state  # noqa: E402
 
-RULES = [rule_auto_rows, rule_raw_rows, rule_attribute_availability, rule_format_independent_hooks, rule_ods_cell_texts, rule_module_state]
+RULES = [rule_auto_rows, rule_raw_rows, rule_attribute_availability, rule_format_independent_hooks, rule_ods_cell_texts, rule_other_containers_cell_texts, rule_module_state]
